@@ -193,3 +193,19 @@ Proof.
   unfold step. destruct (pc s); try discriminate. destruct (c_persist c); intros H1 H2;
     injection H1 as <-; injection H2 as <-; repeat split.
 Qed.
+
+(* the stop branch of the back-off wait: once stopCh is closed every work waiting in its back-off can be
+   released, and the release ends the work with the shutdown error without another export attempt *)
+Lemma backoff_released_l c s k w : nth_error (works s) k = Some w -> w_st w = SBackoff -> rstop s = true ->
+  exists s', step c s (LRetryStop k) = Some s' /\ begun s' = begun s /\
+             nth_error (works s') k = Some (set_st (SDone RShutdown) w).
+Proof.
+  intros N B R. unfold step. rewrite N, B, R. eexists. split; [reflexivity|]. split; [reflexivity|].
+  cbn [works set_works]. clear B R. revert k N. induction (works s) as [|a l IH]; intros [|k] N; simpl in *; try discriminate.
+  - injection N as ->. reflexivity.
+  - apply IH. assumption.
+Qed.
+
+(* ... and stopCh is closed by the first step of Shutdown whenever retry is enabled, queue or no queue *)
+Lemma close_stop_l c s s' : step c s LCloseStop = Some s' -> rstop s' = c_retry c.
+Proof. unfold step. destruct (pc s); try discriminate. intros H. injection H as <-. reflexivity. Qed.
